@@ -1,7 +1,10 @@
 (* C05 -- property theorems only.  Each is closed by `exact` of a lemma from
    proofs/DagAstProofs.v and followed by Print Assumptions.
    The flags come from the source tree: coq/gen/GenC06.v (simplify_ast's two shapes) and
-   coq/gen/GenC05.v (lower_skip_false_guard, the main loop of create_ast_from_phase). *)
+   coq/gen/GenC05.v (lower_skip_false_guard, the main loop of create_ast_from_phase; and
+   lower_guard_outside, the shape of loop_to_ast_node, which DagAst.wrap - hence lower - reads
+   directly: every proof below is generic in it (lemmas about DagAst.wrap_g go, all go), so this
+   file checks unchanged against either shape of the wrapping). *)
 From Coq Require Import List Permutation.
 Import ListNotations.
 From Dagrt Require Import GenC06 GenC05 Simplify DagAst DagAstProofs.
@@ -61,7 +64,7 @@ Theorem C05_walker_total_partial : forall stmts, closed stmts ->
     walk t = WOk evs.
 Proof.
   exact (fun stmts Hc Hn =>
-           lower_walk_total simplify_rev_expand lower_skip_false_guard stmts Hc (or_intror Hn)).
+           lower_walk_total simplify_rev_expand lower_skip_false_guard stmts Hc (or_intror (or_intror Hn))).
 Qed.
 Print Assumptions C05_walker_total_partial.
 
